@@ -361,6 +361,18 @@ class Executor(ExprMixin):
             conds.append(c)
             s2 = st.add(c)
             if feasible(s2):
+                if con.ensures_on_raise:
+                    s3 = s2.copy()
+                    s3.marks = pre.marks
+                    for f in con.modifies:
+                        s3.heap[f] = fresh(f'fld_{f}', z3.ArraySort(T.I, V))
+                    nm = fresh('maxid', T.I)
+                    s3 = s3.add(nm >= st.maxid)
+                    s3.maxid = nm
+                    evx = SpecEval(self.reg, s3, names, s3.marks, None)
+                    s3 = s3.add(*[evx.eval_str(e) for e in con.ensures_on_raise.values()])
+                    s3.marks = st.marks
+                    s2 = s3
                 outs.append(Flow('exc', s2, exc))
         normal = st.add(*[z3.Not(c) for c in conds]) if conds else st
         if not feasible(normal):
@@ -1586,6 +1598,13 @@ class Executor(ExprMixin):
                     self.vc(fl.st, f'{self.c.name}.raises.{exc}.only_normal_when_not', z3.Not(cond), True,
                             f'returns normally although the raises condition of {exc} holds: {self.c.raises[exc]}')
             elif fl.kind == 'exc':
+                if self.c.ensures_on_raise:
+                    names = dict(self.entry.env)
+                    names.update({k: v for k, v in fl.st.env.items() if k in self.c.params})
+                    evx = SpecEval(self.reg, fl.st, names, fl.st.marks, None)
+                    for cname, text in self.c.ensures_on_raise.items():
+                        self.vc(fl.st, f'{self.c.name}.on_raise.{cname}', evx.eval_str(text), True,
+                                f'at an exceptional exit ({fl.val}): {text}')
                 listed = [e for e in raise_conds if exc_isa(fl.val, e)]
                 if listed:
                     self.vc(fl.st, f'{self.c.name}.raises.{listed[0]}.only_when', raise_conds[listed[0]], True,
